@@ -100,7 +100,8 @@ func TransformModuleFilesToModel( //nolint:funlen,gocognit,cyclop
 		}
 
 		for _, typeDef := range mdl.GetTypeDefinitions() {
-			_, extension := typeDefExtensions[typeDef.GetType()]
+			// a file can define a type and also extend a type of the same name, only the latter is an extension
+			extension := typeDefExtensions[typeDef.GetType()] == typeDef
 			if slices.Contains(types, typeDef.GetType()) && !extension {
 				lineIndex := utils.GetTypeLineNumber(typeDef.GetType(), lines)
 				line, col := utils.ConstructLineAndColumnData(lines, lineIndex, typeDef.GetType())
